@@ -1175,7 +1175,10 @@ fn check_use_token(
         total += apps[i].tx_calls;
         i += 1;
     }
-    assert!(total == asked, "C15/round-robin: no application is asked outside its turn (none at all once the hold time is over and the guaranteed cycle was used)");
+    if !offer {
+        assert!(total == 0, "C13/one-cycle: once the hold time is over and the visit's guaranteed message cycle was used, no application is asked again in this token visit");
+    }
+    assert!(total == asked, "C15/round-robin: no application is asked outside its turn");
     let data_after = UseTokenData { token_time: data.token_time, first_app };
     match sender {
         Some(i) => {
@@ -1197,7 +1200,9 @@ fn check_use_token(
             } else {
                 assert!(st.next_application == pre_next, "C15/round-robin: the turn does not move when nobody was asked");
             }
-            kani::cover!(offer && napps >= 1 && asked as usize == napps, "cover: all applications decline in turn");
+            if napps >= 1 {
+                kani::cover!(offer && asked as usize == napps, "cover: all applications decline in turn");
+            }
             kani::cover!(!offer, "cover: hold time over and guaranteed cycle used: token passed without asking");
         }
     }
@@ -1308,7 +1313,8 @@ fn step_await_data_response(log_on: bool, napps: usize) {
         if valid {
             assert!(apps[who].rx_calls == 1 && apps[who].to_calls == 0 && apps[who].rx_addr == address, "C15/matched-reply: the reply is delivered once, to the sender, tagged with the addressed station");
             assert!(apps[who].rx_kind == t.kind && (t.kind == 1 || (apps[who].rx_sa == address && apps[who].rx_da == ts && apps[who].rx_is_response)), "C15/admission: a delivered reply is a short confirmation or a response telegram from the addressed station to this station");
-            assert!(st.state == State::UseToken { data, first_cycle_done: true }, "C15/await: after the reply the token is in use again, the guaranteed cycle counted as used");
+            assert!(matches!(st.state, State::UseToken { data: d, .. } if d == data), "C15/await: after the reply the token is in use again");
+            assert!(st.state == State::UseToken { data, first_cycle_done: true }, "C13/one-cycle: a completed message cycle counts as the visit's guaranteed cycle");
             assert!(apps[0].tx_calls + apps[1].tx_calls + apps[2].tx_calls == 0, "C15/round-robin: no new request in the poll that delivered the reply");
             kani::cover!(t.kind == 1, "cover: short confirmation delivered");
             kani::cover!(t.kind == 2, "cover: response telegram delivered");
